@@ -59,31 +59,70 @@ rfrag!(rfrag_dt, DT, 0, 16, 8);
 // @h rfrag_vec_string props=C14 tier=thorough kind=bounded bound="outer<=2, inner<=1 ASCII" vars="v:Vec<String> (heap-owning items dropped on failure), plan[3], failure position" fns="deser/helpers.rs:deserialize_full_vec_deep,impls/string.rs"
 rfrag!(rfrag_vec_string, Vec<String>, 2, 48, 12);
 
-/// deep vector whose elements own heap memory: on a reader failure the
-/// partially built vector is dropped (CBMC flags frees of uninitialised or
-/// already freed memory). Cheaper than `rfrag`: the reader fails at a symbolic
-/// position but does not fragment.
-// @h rfail_vec_vec_u8 props=C14 tier=quick kind=bounded bound="outer len=2, inner len<=1" vars="v:Vec<Vec<u8>>, failure position (any)" fns="deser/helpers.rs:deserialize_full_vec_deep,deser/helpers.rs:deserialize_full_vec_zero"
+/// A deep-copy element type whose destructor checks that the value was really
+/// built (a marker written by its deserializer): dropping a slot of a partially
+/// built vector that was never written fails the assertion (the memory is
+/// uninitialised, i.e. arbitrary for CBMC). No heap involved, so it is cheap.
+pub struct Tracked {
+    pub magic: u32,
+    pub x: u32,
+}
+const BUILT: u32 = 0x5AFE_B17D;
+impl Drop for Tracked {
+    fn drop(&mut self) {
+        assert!(self.magic == BUILT, "[C14/drop.built] only values that were completely built are ever dropped");
+    }
+}
+impl epserde::traits::CopyType for Tracked {
+    type Copy = epserde::traits::Deep;
+}
+impl DeserializeInner for Tracked {
+    type DeserType<'a> = Tracked;
+    fn _deserialize_full_inner(backend: &mut impl ReadWithPos) -> deser::Result<Self> {
+        let x = u32::_deserialize_full_inner(backend)?;
+        Ok(Tracked { magic: BUILT, x })
+    }
+    fn _deserialize_eps_inner<'a>(backend: &mut epserde::deser::SliceWithPos<'a>) -> deser::Result<Self> {
+        let x = u32::_deserialize_eps_inner(backend)?;
+        Ok(Tracked { magic: BUILT, x })
+    }
+}
+
+// @h rfail_vec_tracked props=C14 tier=quick kind=bounded bound="len<=3" vars="stream: len<=3 then symbolic items; reader failure position (any)" fns="deser/helpers.rs:deserialize_full_vec_deep,impls/vec.rs:DeserializeHelper<Deep>"
 #[kani::proof]
-#[kani::unwind(5)]
-pub fn rfail_vec_vec_u8() {
-    let mut v: Vec<Vec<u8>> = Vec::with_capacity(2);
-    v.push(<Vec<u8>>::sym(1));
-    v.push(<Vec<u8>>::sym(1));
-    let mut sink = ArrSink::<48>::new();
-    let (r, _) = ser_at(&v, 0, &mut sink);
-    assert!(r.is_ok(), "[C01/ser.ok] serialization into an infallible sink succeeds");
-    let n = sink.len;
+#[kani::unwind(6)]
+pub fn rfail_vec_tracked() {
+    let mut buf: [u8; 20] = kani::any();
+    let len: usize = kani::any();
+    kani::assume(len <= 3);
+    buf[..8].copy_from_slice(&len.to_le_bytes());
+    let n = 8 + 4 * len;
     let fail_at: usize = kani::any();
-    let mut src = FailingReader { data: &sink.buf[..n], off: 0, fail_at };
+    let mut src = FailingReader { data: &buf[..n], off: 0, fail_at };
     let mut rd = ReaderWithPos::new(&mut src);
-    match <Vec<Vec<u8>>>::_deserialize_full_inner(&mut rd) {
+    match <Vec<Tracked>>::_deserialize_full_inner(&mut rd) {
         Ok(d) => {
             assert!(fail_at >= n, "[C14/fail.never_ok] a reader that fails before the end never yields a value");
-            assert!(d.keq(&v), "[C14/frag.value] the value is the original");
+            assert!(d.len() == len, "[C14/frag.value] the vector has the announced length");
         }
         Err(deser::Error::ReadError) => assert!(fail_at < n, "[C14/frag.ok] without a reader failure deserialization succeeds"),
         Err(e) => { core::mem::forget(e); assert!(false, "[C14/fail.kind] a reader failure is reported as a read error") }
     };
-    kani::cover!(fail_at < n && fail_at > 8, "[cover] failure after the length word reached");
+    kani::cover!(fail_at < n && fail_at > 12, "[cover] failure after the first item reached");
+}
+
+/// the same for arrays of deep elements (built in place in uninitialised memory)
+// @h rfail_arr_tracked props=C14 tier=quick kind=complete vars="stream: 3 symbolic items; reader failure position (any)" fns="impls/array.rs:DeserializeHelper<Deep>::_deserialize_full_inner_impl"
+#[kani::proof]
+#[kani::unwind(6)]
+pub fn rfail_arr_tracked() {
+    let buf: [u8; 12] = kani::any();
+    let fail_at: usize = kani::any();
+    let mut src = FailingReader { data: &buf[..], off: 0, fail_at };
+    let mut rd = ReaderWithPos::new(&mut src);
+    match <[Tracked; 3]>::_deserialize_full_inner(&mut rd) {
+        Ok(_) => assert!(fail_at >= 12, "[C14/fail.never_ok] a reader that fails before the end never yields a value"),
+        Err(deser::Error::ReadError) => assert!(fail_at < 12, "[C14/frag.ok] without a reader failure deserialization succeeds"),
+        Err(e) => { core::mem::forget(e); assert!(false, "[C14/fail.kind] a reader failure is reported as a read error") }
+    };
 }
